@@ -4,26 +4,26 @@ change (it receives the property text and a scratch worktree, nothing from /veri
 new round explores other code."""
 import json, os, sys
 PREV = {
-"C01": ["the '..' entry written by create_dir for directories created in a FAT32 root", "the deleted-slot run counter in Dir::find_free_entries", "the order of compare/ascend in Dir::is_inside"],
-"C02": ["the starting cluster of the chain walk in File::seek", "the cached current cluster in File::read at a cluster boundary", "File::write advancing the cursor by the requested instead of the transferred byte count"],
-"C03": ["the '..' entry written by rename when a directory is moved into a FAT32 root", "the cluster of a new directory not being freed when its parent directory is full", "the >= / > length check in LongNameBuilder::into_buf (255-unit names)"],
-"C04": ["File::truncate at offset 0 not resetting the handle's cached first cluster", "the dirty flag assignment in the DirEntryEditor time setters", "the >= / > length check in LongNameBuilder::into_buf (255-unit names)"],
-"C05": ["FSInfo not being marked dirty when clusters are only freed", "the missing 28-bit mask in Fat32::count_free", "the capacity check of the fixed root in Dir::find_free_entries"],
-"C06": ["rounding in determine_sectors_per_fat", "the zero-fill length of the FAT region in format_volume", "the root-directory size hoisted out of the FAT-type loop in determine_fs_layout"],
-"C07": ["the FAT12/FAT16 cluster-count boundary in FatType::from_clusters", "the 64-bit sum in BiosParameterBlock::validate_total_sectors", "16-bit arithmetic in BiosParameterBlock::root_dir_sectors"],
-"C08": ["DirIter offset_range covering skipped slots before an entry", "FatType::from_clusters thresholds (exactly 4084 / 65524 clusters)", "DirFileEntryData::set_first_cluster(None) leaving the high 16 bits"],
-"C09": ["File::seek treating a failed FAT read as end of chain", "Dir::is_empty swallowing an iterator error", "Dir::is_inside mapping a storage error to CorruptedFileSystem"],
-"C10": ["the end bound of Fat32::find_free", "the number of mirrors derived in fat_slice()", "Fat32::set zeroing the reserved bits when a cluster is freed"],
-"C11": ["the end bound of Fat12::find_free", "fat_slice()/active_fat() with a stale active-copy nibble", "the entry position recorded in DirIter::read_dir_entry / File::abs_pos"],
-"C12": ["ClusterIterator::truncate skipping the FAT write when nothing is freed", "the set_dirty_flag call at the start of File::write", "the bit mask used in FileSystem::set_dirty_flag"],
-"C13": ["FileSystem::new marking FSInfo dirty on a dirty-at-mount volume", "the early return of FileSystem::set_dirty_flag", "FileSystem::stats recounting when table entry 1 says not cleanly shut down"],
-"C14": ["File::flush skipping the storage flush when the directory entry is clean", "DirEntryEditor::flush clearing the dirty mark before the write", "DirEntryEditor::clone clearing the dirty mark (File::clone)"],
-"C15": ["a length fast-path in DirEntry::eq_name_lfn", "LongNameBuilder::truncate on the directory read path", "validate_long_name counting characters instead of bytes"],
-"C16": ["the choice of the numeric tail in ShortNameGenerator::generate", "the scan in Dir::check_for_existence that feeds the short-name generator", "Dir::rename_internal keeping the source alias when the name is unchanged"],
-"C17": ["LongNameBuilder not being cleared when a deleted/volume slot is skipped", "the per-slot checksum comparison in LongNameBuilder::process", "LongNameBuilder::into_buf counting characters instead of UTF-16 units"],
-"C18": ["the dirty check in DirEntryEditor::set_created", "DirFileEntryData::renamed forgetting create_time_0", "File::update_dir_entry_after_write stamping the modification time only when the file grows"],
-"C19": ["the size of the fixed long-name buffer in no-alloc builds", "the non-unicode char_to_uppercase", "LongNameBuilder::truncate searching the terminator in the raw fixed buffer (no-alloc build)"],
-"C20": ["the end bound of Fat32::find_free on a volume whose trailing FAT entries are zero", "the upper 16 bits of the first cluster in set_first_cluster", "32-bit shift in BiosParameterBlock::bytes_from_sectors"],
+"C01": ["the '..' entry written by create_dir for directories created in a FAT32 root", "the deleted-slot run counter in Dir::find_free_entries", "the order of compare/ascend in Dir::is_inside", "DiskSlice::seek rejecting the end position (full fixed root directory)"],
+"C02": ["the starting cluster of the chain walk in File::seek", "the cached current cluster in File::read at a cluster boundary", "File::write advancing the cursor by the requested instead of the transferred byte count", "File::truncate keeping the freed first cluster in the entry"],
+"C03": ["the '..' entry written by rename when a directory is moved into a FAT32 root", "the cluster of a new directory not being freed when its parent directory is full", "the >= / > length check in LongNameBuilder::into_buf (255-unit names)", "the stay-in-cluster shortcut of File::seek (directory streams)"],
+"C04": ["File::truncate at offset 0 not resetting the handle's cached first cluster", "the dirty flag assignment in the DirEntryEditor time setters", "the >= / > length check in LongNameBuilder::into_buf (255-unit names)", "the FAT12/FAT16 threshold constant in FatType"],
+"C05": ["FSInfo not being marked dirty when clusters are only freed", "the missing 28-bit mask in Fat32::count_free", "the capacity check of the fixed root in Dir::find_free_entries", "DirFileEntryData::set_first_cluster(None) leaving the high word (free count after remove)"],
+"C06": ["rounding in determine_sectors_per_fat", "the zero-fill length of the FAT region in format_volume", "the root-directory size hoisted out of the FAT-type loop in determine_fs_layout", "32-bit multiplication in determine_bytes_per_cluster (forced FAT12 above 4 TiB)"],
+"C07": ["the FAT12/FAT16 cluster-count boundary in FatType::from_clusters", "the 64-bit sum in BiosParameterBlock::validate_total_sectors", "16-bit arithmetic in BiosParameterBlock::root_dir_sectors", "BiosParameterBlock::validate_total_clusters accepting a FAT32 layout with few clusters"],
+"C08": ["DirIter offset_range covering skipped slots before an entry", "FatType::from_clusters thresholds (exactly 4084 / 65524 clusters)", "DirFileEntryData::set_first_cluster(None) leaving the high 16 bits", "active_fat()/fat_slice() with a non-zero active-copy nibble while mirroring"],
+"C09": ["File::seek treating a failed FAT read as end of chain", "Dir::is_empty swallowing an iterator error", "Dir::is_inside mapping a storage error to CorruptedFileSystem", "DiskSlice::write reporting only the last copy's outcome"],
+"C10": ["the end bound of Fat32::find_free", "the number of mirrors derived in fat_slice()", "Fat32::set zeroing the reserved bits when a cluster is freed", "format_volume zero-filling only the first table copy"],
+"C11": ["the end bound of Fat12::find_free", "fat_slice()/active_fat() with a stale active-copy nibble", "the entry position recorded in DirIter::read_dir_entry / File::abs_pos", "DirFileEntryData::first_cluster using the word at offset 20 on FAT12/16"],
+"C12": ["ClusterIterator::truncate skipping the FAT write when nothing is freed", "the set_dirty_flag call at the start of File::write", "the bit mask used in FileSystem::set_dirty_flag", "FileSystem::new seeding the cached status from table entry 1"],
+"C13": ["FileSystem::new marking FSInfo dirty on a dirty-at-mount volume", "the early return of FileSystem::set_dirty_flag", "FileSystem::stats recounting when table entry 1 says not cleanly shut down", "FsOptions::strict copying the wrong field (access-date updating switched on)"],
+"C14": ["File::flush skipping the storage flush when the directory entry is clean", "DirEntryEditor::flush clearing the dirty mark before the write", "DirEntryEditor::clone clearing the dirty mark (File::clone)", "StdIoWrapper::flush swallowing an interrupted flush"],
+"C15": ["a length fast-path in DirEntry::eq_name_lfn", "LongNameBuilder::truncate on the directory read path", "validate_long_name counting characters instead of bytes", "byte/char index in ShortNameGenerator::new for names starting with a multi-byte character"],
+"C16": ["the choice of the numeric tail in ShortNameGenerator::generate", "the scan in Dir::check_for_existence that feeds the short-name generator", "Dir::rename_internal keeping the source alias when the name is unchanged", "ShortNameGenerator::add_existing skipping aliases whose first byte differs (empty 8.3 base)"],
+"C17": ["LongNameBuilder not being cleared when a deleted/volume slot is skipped", "the per-slot checksum comparison in LongNameBuilder::process", "LongNameBuilder::into_buf counting characters instead of UTF-16 units", "Time::decode asserting field ranges"],
+"C18": ["the dirty check in DirEntryEditor::set_created", "DirFileEntryData::renamed forgetting create_time_0", "File::update_dir_entry_after_write stamping the modification time only when the file grows", "DirEntryEditor::set_first_cluster assigning the dirty flag"],
+"C19": ["the size of the fixed long-name buffer in no-alloc builds", "the non-unicode char_to_uppercase", "LongNameBuilder::truncate searching the terminator in the raw fixed buffer (no-alloc build)", "the no-alloc LfnBuffer::clear keeping a stale length"],
+"C20": ["the end bound of Fat32::find_free on a volume whose trailing FAT entries are zero", "the upper 16 bits of the first cluster in set_first_cluster", "32-bit shift in BiosParameterBlock::bytes_from_sectors", "the reserved cluster range in Fat32::get/set widened to 0x0FFFFFF0"],
 }
 pid, wt = sys.argv[1], sys.argv[2]
 here = os.path.dirname(os.path.abspath(__file__))
